@@ -241,6 +241,26 @@ def run(fx, tier):
         v.check(uncond, 'R-DOM', 'async_sender::resend:unconditional-reset [%s]' % f.tu,
                 'the limit/quota reset dominates the re-queueing (executed on every reconnect, not only on some branch)',
                 key='C07:R-DOM:resend:conditional-reset', where=f.file)
+        # ... and ONLY there: the quota is refilled exactly when everything in flight is handed back for re-sending.
+        # A refill on a path that re-queues nothing (e.g. the early return taken while a write of the new connection is
+        # already in progress) gives the sender a second full quota for packets that are already on the wire.
+        paired = True
+        n_paths = 0
+        for blocks, abort in f.paths():
+            if abort:
+                continue
+            n_paths += 1
+            has_q = any(_writes_field(f.resolve({'k': 'elem', 'b': b_, 'i': i_}), '_quota')
+                        for b_ in blocks for i_ in range(len(f.blocks[b_].elems)))
+            has_r = any(isinstance(f.resolve({'k': 'elem', 'b': b_, 'i': i_}), dict)
+                        and f.resolve({'k': 'elem', 'b': b_, 'i': i_}).get('k') == 'call'
+                        and callee_name(f.resolve({'k': 'elem', 'b': b_, 'i': i_})) == 'resend_unanswered'
+                        for b_ in blocks for i_ in range(len(f.blocks[b_].elems)))
+            if has_q != has_r:
+                paired = False
+        v.check(paired and n_paths > 0, 'R-PAIR', 'async_sender::resend:refill-iff-requeue [%s]' % f.tu,
+                'on every path through resend() the quota is refilled if and only if the unanswered packets are handed back for re-sending',
+                key='C07:R-PAIR:resend:refill-iff-requeue', where=f.file)
         ok = (limit_from_connack and quota_from_limit and 'limit' in first and 'quota' in first
               and first['limit'] < first['quota']
               and all(first['quota'] < first[k] for k in ('resend_unanswered', 'requeue', 'do_write') if k in first)
